@@ -31,6 +31,7 @@ LINK_WRITE = dict(
         ("C14", "delivered", "r is Ok ==> final(self).written() == old(self).written() + ser(message.mv())"),
         ("C14", "frame1", "final(self).rest() == old(self).rest()"), ("C14", "frame2", "final(self).tls() == old(self).tls()"), (None, "frame4", "final(self).cert_checked() == old(self).cert_checked() && final(self).peer_key() == old(self).peer_key()"),
         ("C14", "err-prefix", "r is Err ==> is_prefix(old(self).written(), final(self).written())"),
+        (None, "error-kind", "!automata_err(r)"),
     ])
 LINK_READ = dict(
     ensures=[
@@ -83,6 +84,7 @@ TPKT_WRITE = dict(
     ensures=[
         ("C14", "one-frame", "r is Ok ==> ser(message.mv()).len() <= 65531 && final(self).written() =~= old(self).written() + tpkt_frame(ser(message.mv()))"),
         ("C14", "refuse-oversize", "ser(message.mv()).len() > 65531 ==> r is Err && final(self).written() == old(self).written()"),
+        (None, "error-kind", "!automata_err(r)"),
         ("C14", "frame1", "final(self).rest() == old(self).rest()"), ("C14", "frame2", "final(self).tls() == old(self).tls()"), ("C14", "frame3", "is_prefix(old(self).written(), final(self).written())"),
     ])
 
@@ -111,7 +113,7 @@ UNIT = Unit("frame", ["base.rs", "tls.rs", "model.rs", "leaf.rs", "lemmas.rs"], 
                 ("C13", "frame1", "final(buf)@.len() == old(buf)@.len()"), ("C13", "frame2", "final(self).written() == old(self).written()"), ("C13", "frame3", "final(self).is_ssl() == old(self).is_ssl()"), ("C13", "frame4", "is_suffix(final(self).rest(), old(self).rest())"),
                 (None, "frame4", "final(self).cert_checked() == old(self).cert_checked() && final(self).peer_key() == old(self).peer_key()")]),
     Fn(LINK, "write", impl=r"Stream<S>", mod="link", props=["C14"],
-       ensures=[("C14", "all-delivered", "r is Ok ==> final(self).written() == old(self).written() + buffer@"),
+       ensures=[("C14", "all-delivered", "r is Ok ==> final(self).written() == old(self).written() + buffer@"), (None, "error-kind", "!automata_err(r)"),
                 ("C14", "frame1", "final(self).rest() == old(self).rest()"), ("C14", "frame2", "final(self).is_ssl() == old(self).is_ssl()"), ("C14", "frame3", "is_prefix(old(self).written(), final(self).written())"),
                 (None, "frame4", "final(self).cert_checked() == old(self).cert_checked() && final(self).peer_key() == old(self).peer_key()")]),
     Fn(LINK, "new", impl=r"Link<S>", mod="link", props=["C13", "C14"],
@@ -144,6 +146,7 @@ UNIT = Unit("frame", ["base.rs", "tls.rs", "model.rs", "leaf.rs", "lemmas.rs"], 
     Fn(X224, "write", impl=r"Client<S>", mod="x224", props=["C14"], fuel=4,
        ensures=[("C14", "one-frame", "r is Ok ==> ser(message.mv()).len() <= 65528 && final(self).written() =~= old(self).written() + tpkt::tpkt_frame(x224_data(ser(message.mv())))"),
                 ("C14", "refuse-oversize", "ser(message.mv()).len() > 65528 ==> r is Err && final(self).written() == old(self).written()"),
+                (None, "error-kind", "!automata_err(r)"),
                 ("C14", "frame1", "final(self).rest() == old(self).rest()"), ("C14", "frame2", "final(self).tls() == old(self).tls()"), ("C14", "frame3", "is_prefix(old(self).written(), final(self).written())")]),
     Fn(X224, "read", impl=r"Client<S>", mod="x224", props=["C13", "C05", "C06"], fuel=6,
        ensures=[("C13,C05", "header-complete", "r is Ok ==> old(self).rest().len() >= 2 && old(self).rest().len() >= tpkt::frame_hdr(old(self).rest()) && tpkt::frame_len(old(self).rest()) >= tpkt::frame_hdr(old(self).rest())"),
@@ -156,4 +159,13 @@ UNIT = Unit("frame", ["base.rs", "tls.rs", "model.rs", "leaf.rs", "lemmas.rs"], 
        pre="let ghost b = self.rest();",
        hints=[(r"x224_header\.read\(&mut payload\)\?;", 1, "proof { reveal_with_fuel(is_static, 3); reveal_with_fuel(same_shape, 3); assert(is_static(x224_header.mv())); }", "before"),
               (r"x224_header\.read\(&mut payload\)\?;", 1, "proof { assert(tpkt::frame_hdr(b) == 4); assert(ser(x224_header.mv()).len() == 3); let f = x224_header.fields(); assert(f[0].1 is U8 && f[1].1 is U8 && f[2].1 == MV::Check(Box::new(MV::U8(0x80)))); assert(ser(x224_header.mv())[2] == 0x80); }")]),
+    # ---------------- orderly shutdown (TLS close_notify): nothing else changes
+    Fn(LINK, "shutdown", impl=r"Stream<S>", mod="link", props=["C03"],
+       ensures=[(None, "frame", "final(self).written() == old(self).written() && final(self).rest() == old(self).rest() && final(self).is_ssl() == old(self).is_ssl()")]),
+    Fn(LINK, "shutdown", impl=r"Link<S>", mod="link", props=["C03"],
+       ensures=[(None, "frame", "final(self).written() == old(self).written() && final(self).rest() == old(self).rest() && final(self).tls() == old(self).tls()")]),
+    Fn(TPKT, "shutdown", impl=r"Client<S>", mod="tpkt", props=["C03"],
+       ensures=[(None, "frame", "final(self).written() == old(self).written() && final(self).rest() == old(self).rest() && final(self).tls() == old(self).tls()")]),
+    Fn(X224, "shutdown", impl=r"Client<S>", mod="x224", props=["C03"],
+       ensures=[(None, "frame", "final(self).written() == old(self).written() && final(self).rest() == old(self).rest() && final(self).tls() == old(self).tls()")]),
 ], uses={"tpkt": ["use super::link::*;"], "x224": ["use super::tpkt;"]})
